@@ -4,8 +4,12 @@ TLC: ProxyServer.tla with the fault layer: PanicConfined, plus the invariants un
 Binding: (a) panics injected in user callbacks reachable from the connection goroutine (GetCertificate, ConnState hook on h2 and on h1) against the
 real server in a child process: the child must survive and serve control requests on both protocols; (b) the mixed-abuse scenarios (garbage, plain
 HTTP, aborts at random byte offsets of TLS / HTTP/1.1 / HTTP/2 sessions, stalls) run in-process - any escaped panic would kill the driver - and their
-traces are validated; (c) mutated and truncated HTTP/2 transcripts against the stack (see harness/cmd/abusedriver in the thorough tier).
+traces are validated; (c) the frame space of H2Frame.tla (every abstract frame x open-header-block state of the TLC graph, serialized by the C19 driver, plus cuts) sent to the
+real stack in a child process, one connection each, on a fresh connection and with a stream open; control requests on both protocols between batches;
+a child that dies or stops serving is bisected to the single connection that did it (harness/cmd/abusedriver).
 """
+import os
+
 import lccommon as lc
 import vf
 
@@ -29,10 +33,25 @@ def run(ctx):
             ctx.violation({'check': 'C10', 'kind': 'process_died_or_stopped_serving', 'callback': sc['point']},
                           'a panic in the user callback %s on one connection: control requests afterwards h1=%s h2=%s, child exit %s'
                           % (sc['point'], sc.get('control_after_h1'), sc.get('control_after_h2'), sc.get('child_exit')), sc)
-    cov = {'traces_validated_against_impl': len([a for a in accepted if a.startswith('mix')]) + npanic,
+    # (c) every abstract frame of H2Frame.tla x open-header-block state, serialized by the C19 driver, thrown at the live stack in a child process
+    gpath, g, r = vf.tlc_graph(ctx, 'H2Frame', 'MC_C19_read.cfg', 'c10frames')
+    vecs = os.path.join(ctx.scratch, 'c10_vectors.ndjson')
+    vf.run_overlay_driver(ctx, 'pkg/http2', ['common/graph_test.go', 'http2/c19_test.go'], '^TestVFC19Read$',
+                          env={'VF_GRAPH': gpath, 'VF_MAXREAD': '16384', 'VF_MUTATIONS': '0', 'VF_DUMPBYTES': vecs}, out_name='c10_c19r.json')
+    drv = ctx.build_driver('abusedriver')
+    rep = os.path.join(ctx.scratch, 'c10_abuse.json')
+    ctx.run_driver(drv, ['run', vecs, rep], timeout=3000, env={'VF_ABUSE_LIMIT': '500' if ctx.tier == 'quick' else '0'})
+    abuse = vf.read_json(rep)
+    if abuse.get('error'):
+        raise vf.Inconclusive('abuse driver: %s' % abuse['error'][:600])
+    for k in abuse.get('killers') or []:
+        ctx.violation({'check': 'C10', 'kind': 'process_died_or_stopped_serving', 'frame_type': k['frame_type']},
+                      'one HTTP/2 connection sending a %s frame (%d bytes, %s, open header block on %s): %s' % (k['frame_type'], k['len'], k['mode'], k['open_header_block_on'], k['effect']), k)
+    cov = {'traces_validated_against_impl': len([a for a in accepted if a.startswith('mix')]) + npanic + abuse['connections'],
+           'h2_frame_abuse': {k: abuse[k] for k in ('vectors_in_graph', 'connections', 'by_type', 'strata', 'outcomes', 'control_rounds')},
            'samples': [{'panic_scenario': {k: v for k, v in s.items() if k != 'child_stderr_head'}} for s in report if s['family'] == 'panic'][:2] + [{'trace_prefix': lc.sample_trace(lines, 10)}],
            'panic_callbacks': [s['point'] for s in report if s['family'] == 'panic'],
            'abuse_scenarios': [s['name'] for s in report if s['family'] == 'mix'],
-           'rule': 'fault enumeration over user callbacks x protocols in a child process; abusive client scripts in-process with trace validation'}
+           'rule': 'fault enumeration over user callbacks x protocols in a child process; abusive client scripts in-process with trace validation; H2Frame.tla frame space against a child process (quick: sample covering every frame type, thorough: all)'}
     return ctx.finish(cov, assumptions=['handler and header-injector panics are recovered by net/http and the HTTP/2 server themselves (per request)',
                                         'I/O error injection at every operation index is not built yet; client-side aborts at random byte offsets stand in for it'])
